@@ -7,12 +7,11 @@
  * size is encoded through the array theory byte by byte and the propositional formula for a 3-element heap
  * already exceeds 16 GB.  This model case-splits sizes that are a multiple of sizeof(void *) (the only sizes a
  * PTRLIST elastic array ever requests) up to HEAP_RA_MAXSLOTS pointers into constant-size allocations and
- * copies pointer-wise; every other size takes the generic path (symbolic-size object, byte copy).
+ * copies pointer-wise; every other size hits a MODEL-BOUND assertion (the group is then undecided).
  * Allocation failure comes from malloc (--malloc-may-fail --malloc-fail-null), realloc(p, 0) is not special-cased
  * (elasticarray.c never calls it: it frees instead).
  */
 #include <stdlib.h>
-#include <string.h>
 
 #ifndef HEAP_RA_MAXSLOTS
 #ifdef HP_MAXN
@@ -34,7 +33,7 @@
 	RA_CP_(24, k) RA_CP_(25, k) RA_CP_(26, k) RA_CP_(27, k) RA_CP_(28, k) RA_CP_(29, k) RA_CP_(30, k) RA_CP_(31, k)
 #define RA_CASE_(k) if ((k) <= HEAP_RA_MAXSLOTS && slots == (k)) { \
 		nw = malloc((k) * sizeof(void *)); \
-		if (nw != NULL) { RA_COPY_(k) } \
+		if (nw != NULL && old != NULL) { RA_COPY_(k) } \
 	} else
 
 void *
@@ -62,14 +61,9 @@ realloc(void * ptr, size_t size)
 		free(ptr);
 		return (nw);
 	} else {
-		void * nw = malloc(size);
-
-		if (nw == NULL)
-			return (NULL);
-		if (ptr != NULL) {
-			memcpy(nw, ptr, osize < size ? osize : size);
-			free(ptr);
-		}
-		return (nw);
+		/* outside the modelled range: reported as a model bound (group undecided), never silently cut off */
+		__CPROVER_assert(0, "MODEL-BOUND realloc: size is not a multiple of sizeof(void *) <= HEAP_RA_MAXSLOTS pointers");
+		__CPROVER_assume(0);
+		return (NULL);
 	}
 }
